@@ -34,88 +34,60 @@ def look (m : List (String × String)) (k : String) : String :=
 def listOf (s : String) (sep : String) : List String :=
   if s == "" || s == "-" then [] else s.splitOn sep
 
-/-- `<chan>#k` → channel index -/
-def chanRef (p : Pipeline) (s : String) : Option Ch :=
+/-- `<name>#k` → (name, k) -/
+def nameInst (s : String) : String × Nat :=
   match s.splitOn "#" with
-  | [n] => p.chanByName n 0
-  | [n, k] => match k.toNat? with
-    | some k => p.chanByName n k
-    | none => none
-  | _ => none
+  | [n, k] => (n, k.toNat?.getD 0)
+  | _ => (s, 0)
 
-/-- does the decision path `cond` ("text:i;text:j;..") agree with picking branch `i` of the
-    decision whose text contains `site`? -/
-def condAgrees (cond site : String) (i : Nat) : Bool :=
-  (cond.splitOn ";").all fun d =>
-    match (d.splitOn ":").reverse with
-    | idx :: rest =>
-      let text := String.intercalate ":" rest.reverse
-      if (text.splitOn site).length > 1 then idx.toNat? == some i else true
-    | [] => true
+/-- the goroutines a `keep` entry stands for: `f` = every goroutine of function `f` (all closures),
+    `f#k` = the k-th goroutine called exactly `f` -/
+def keepRefs (p : Pipeline) (pre : String) : List (String × Option Nat) :=
+  match pre.splitOn "#" with
+  | [n, k] => [(n, some (k.toNat?.getD 0))]
+  | _ =>
+    let names := (p.gs.filter (fun g => g.name == pre || g.name.startsWith (pre ++ "."))).map (·.name)
+    (names.foldl (fun acc n => if acc.contains n then acc else acc ++ [n]) []).map fun n => (n, none)
 
-/-- resolve a data-dependent decision: successors of branch nodes that stand for another outcome
-    of the decision are removed -/
-def applyPick (p : Pipeline) (keep : List Gi) (site : String) (i : Nat) : Pipeline :=
-  { p with gs := p.gs.zipIdx.map fun x =>
-      if !keep.contains x.2 then x.1 else
-      { x.1 with nodes := x.1.nodes.zipIdx.map fun nd =>
-          match nd.1 with
-          | .branch ns =>
-            let conds := x.1.conds[nd.2]?.getD []
-            let kept := ns.zipIdx.filterMap fun s =>
-              if condAgrees (conds[s.2]?.getD "") site i then some s.1 else none
-            if kept.isEmpty then nd.1 else .branch kept
-          | _ => nd.1 } }
+def consMode (s : String) : ConsMode :=
+  if s == "all" then .all else if s == "ctx" then .ctx else .take ((s.drop 1).toNat?.getD 0)
+
+def ctlOp (s : String) : Option CtlOp :=
+  if s == "x" then some .cancel else if s == "r" then some .release else if s == "go" then some .go
+  else if s.startsWith "f" then (s.drop 1).toNat?.map .feed else none
+
+def specOf (p : Pipeline) (m : List (String × String)) : Spec :=
+  { keep := (listOf (look m "keep") ",").flatMap (keepRefs p)
+    feed := (listOf (look m "feed") ";").map fun s =>
+      match s.splitOn ":" with
+      | [c, prog] => (nameInst c, if prog == "-" then [] else prog.toList)
+      | c :: _ => (nameInst c, [])
+      | [] => (("", 0), [])
+    cons := (listOf (look m "cons") ";").map fun s =>
+      match s.splitOn ":" with
+      | [c, mode] => (nameInst c, consMode mode)
+      | c :: _ => (nameInst c, .all)
+      | [] => (("", 0), .all)
+    ctl := (listOf (look m "ctl") ",").filterMap ctlOp
+    pick := (listOf (look m "pick") ";").filterMap fun s =>
+      match s.splitOn ":" with
+      | [site, i] => some (site.replace "_" " ", i.toNat?.getD 0)
+      | _ => none
+    obs := (listOf (look m "obs") ";").map nameInst
+    pre := look m "pre" == "1" }
+
+/-- decision texts are matched by substring in scenario lines -/
+def substr (text site : String) : Bool := (text.splitOn site).length > 1
 
 def runScenario (m : List (String × String)) : String :=
   match Gen.Pipes.all.find? (·.name == look m "p") with
   | none => "error unknown-pipeline"
   | some p0 =>
-    let keep := (listOf (look m "keep") ",").flatMap p0.gsByPrefix
-    let p1 := (listOf (look m "pick") ";").foldl (fun p s =>
-      match s.splitOn ":" with
-      | [site, i] => applyPick p keep (site.replace "_" " ") (i.toNat?.getD 0)
-      | _ => p) p0
-    let feeds := (listOf (look m "feed") ";").map fun s =>
-      match s.splitOn ":" with
-      | [c, prog] => (chanRef p1 c, if prog == "-" then [] else prog.toList)
-      | [c] => (chanRef p1 c, [])
-      | _ => (none, [])
-    let conss := (listOf (look m "cons") ";").map fun s =>
-      match s.splitOn ":" with
-      | [c, mode] => (chanRef p1 c, mode)
-      | _ => (none, "")
-    let obs := (listOf (look m "obs") ";").map (chanRef p1)
-    if feeds.any (·.1.isNone) || conss.any (·.1.isNone) || obs.any Option.isNone then "error unknown-channel" else
-    let rel := p1.nctx
-    let gate (i : Nat) := p1.nctx + 1 + i
-    let feeders := feeds.zipIdx.map fun x =>
-      -- gate, then the program (shifted by one node)
-      let body := feederNodes (x.1.1.getD 0) rel x.1.2
-      let shifted := body.map (Node.shift 1)
-      mkG ("harness.feeder" ++ toString x.2) (Node.sel [.ctx (gate x.2) 1] :: shifted)
-    let consumers := conss.filterMap fun x => (consumerNodes (x.1.getD 0) x.2).map (mkG "harness.consumer")
-    let ctlOps := listOf (look m "ctl") ","
-    let goGate := gate feeds.length
-    let gated := ctlOps.contains "go"
-    let ctlCtxs := ctlOps.filterMap fun op =>
-      if op == "x" then some 0 else if op == "r" then some rel else if op == "go" then some goGate
-      else if op.startsWith "f" then (op.drop 1).toNat?.map gate else none
-    let ctl := mkG "harness.controller" (controllerNodes ctlCtxs)
-    let extra := feeders ++ consumers ++ [ctl]
-    -- `go` in the script: the code under test is started by the controller
-    let gateG (x : Goroutine × Nat) : Goroutine :=
-      if keep.contains x.2 && !x.1.daemon && x.1.static then
-        { x.1 with nodes := Node.sel [.ctx goGate 1] :: x.1.nodes.map (Node.shift 1), sites := "start" :: x.1.sites }
-      else x.1
-    let p1 : Pipeline := if gated then { p1 with gs := p1.gs.zipIdx.map gateG } else p1
-    let p2 := p1.surgery keep extra (p1.nctx + 2 + feeds.length)
-    let sc : Scenario := { p := p2, controller := some (p2.gs.length - 1),
-                           watched := keep.filter (fun g => match p2.gs[g]? with | some gr => !gr.daemon | none => false),
-                           observed := obs.filterMap id }
-    -- pre=1: the stage is started with its context already done
-    let e := if look m "pre" == "1" then sc.exploreFrom ((init sc.p).setCtx 0) else sc.explore
-    (if e.truncated then "TRUNCATED " else "") ++ String.intercalate " | " e.finals
+    match Scenario.ofSpec substr p0 (specOf p0 m) with
+    | none => "error unknown-channel"
+    | some sc =>
+      let e := sc.explore
+      (if e.truncated then "TRUNCATED " else "") ++ String.intercalate " | " e.finals
 
 def runWf (name : String) : String :=
   match Gen.Pipes.all.find? (·.name == name) with
